@@ -1,8 +1,8 @@
 import NsyncVerif.Gen.Sites
 import NsyncVerif.Proofs.CvFixVC
 /-
-  Tie lemma (T-gen) for the cv-signal edge of C03: the order `siteOrd` gives to each of the 41 atomic
-  sites of cv.c / wait.c / common.c that the product CvFix × vector clocks uses is the order the macro
+  Tie lemma (T-gen) for the cv-signal edge of C03: the order `siteOrd` gives to each of the 45 atomic
+  sites of cv.c / wait.c / common.c / debug.c (emit_cv_state, emit_waiters: the observers of C16) that the product CvFix × vector clocks uses is the order the macro
   at that site of /repo's CURRENT source requests (regenerated table `Gen.sites`).  A weakened
   `ATM_STORE_REL (&p_nw->waiting, 0)` or `ATM_LOAD_ACQ (&w->nw.waiting)`, a moved or added site in
   these functions makes this fail — also at sites no explored schedule reaches.
